@@ -126,9 +126,14 @@ static void do_op(Cmd *c) {
         else if (is_op(c, "it_next")) { enum cc_stat st = cc_stack_iter_next(&it, &out); o_out(st, out); }
         else if (is_op(c, "it_replace")) { enum cc_stat st = cc_stack_iter_replace(&it, PTR(pos_u64(c, 0)), &out); o_out(st, out); }
         else o("st=- badop");
-    } else if (is_op(c, "mk_new")) {
+    } else if (is_op(c, "mk_new") || is_op(c, "mk_new_default")) {
         if (S[to]) o("st=- slotbusy");
-        else { CC_Stack *r = NULL; enum cc_stat st = make(c, &r); if (st == CC_OK) { S[to] = r; slot_default[to] = 0; } o_stat(st); }
+        else {
+            CC_Stack *r = NULL; int dflt = is_op(c, "mk_new_default");
+            enum cc_stat st = dflt ? cc_stack_new(&r) : make(c, &r);
+            if (st == CC_OK) { S[to] = r; slot_default[to] = dflt; }
+            o_stat(st);
+        }
     } else if (!s) { o("st=- noobj");
     } else if (is_op(c, "drop")) { cc_stack_destroy(s); drop_slot(k); o("st=-");
     } else if (is_op(c, "push")) { o_stat(cc_stack_push(s, PTR(pos_u64(c, 0))));
